@@ -230,6 +230,25 @@ fn judge(rep: &mut Report, opts: &Opts, observer: Option<&(String, (f64, f64))>,
             // earlier-fix step: two frames at the same place, same instant: must decode
             let (la, lo) = plan.earlier_fix.unwrap();
             let d = cpr::haversine_km(la, lo, after.latf(), after.lonf());
+            // the pair is only required to decode when it is a valid pair by the statement: no CPR field of 0
+            // ("not received"), and both frames in the same latitude zone (a random latitude lands within one CPR
+            // quantum of an NL boundary about once in 10^5 cases; thorough runs reach that)
+            let decodable = match plan.fix_frames.as_ref() {
+                Some((e, od)) => {
+                    let zero = e.cpr.0 == 0 || e.cpr.1 == 0 || od.cpr.0 == 0 || od.cpr.1 == 0;
+                    let (g, rl) = cpr::global_decode([e.cpr.0, od.cpr.0], [e.cpr.1, od.cpr.1], 1);
+                    !zero && matches!(g, Global::Pos(_, _)) && cpr::nl_boundary_distance(rl[0]) > 1e-4 && cpr::nl_boundary_distance(rl[1]) > 1e-4 && cpr::nl_boundary_distance(la) > 1e-4
+                }
+                None => false,
+            };
+            if !decodable {
+                rep.class("earlier-fix-not-a-valid-pair(not judged)");
+                if let Some((e, od)) = plan.fix_frames.as_ref() {
+                    slot[0] = Some((clock, e));
+                    slot[1] = Some((clock, od));
+                }
+                continue;
+            }
             rep.eval(Some(format!("fix:{}", h.steps[k].lines.join(",")).as_bytes()));
             rep.class("earlier-fix");
             if !(d < 0.02) {
